@@ -67,7 +67,12 @@ def unify(ctx):
             else:
                 si = menu[ctx.choose("shape", len(menu))]
             _make(ctx, c, si)
-    _verify(ctx, S, src, "")
+    # read-only queries before unifying: looking up identifiers the document does not hold must not change the result
+    nl = (0, 2, 3)[ctx.choose("absent_lookups", 3)] if pattern else (ctx.choose("absent_lookups", 2) if (n_top + n_bun) == 2 else 0)
+    for i in range(nl):
+        for c in conts:
+            ctx.check(len(c.get_record("en:zz%d" % i)) == 0, "get_record() of an absent identifier returned records")
+    _verify(ctx, S, src, "" if nl == 0 else "after %d look-ups of absent identifiers: " % nl)
     # second round: modify a record of the source in place (no record added) and unify again - the result must
     # reflect the modification (no stale state kept between calls)
     if ctx.params.get("second_round", (n_top + n_bun) <= 2):
@@ -203,7 +208,7 @@ OBLIGATIONS = [
         assumptions=["identifier local parts match [A-Za-z][A-Za-z0-9_]*", "times are catalogue values (equal/different decided concretely)"],
         functions=["prov.model.ProvBundle._unified_records/unified", "prov.model.ProvDocument.unified", "prov.model.ProvRecord.copy/add_attributes",
                    "prov.model.ProvBundle.add_record/new_record/_add_record", "prov.model.ProvDocument.add_bundle"],
-        budget_s=(150, 900),
+        budget_s=(240, 900),
         per_path_s=(20, 40),
     )
 ]
